@@ -177,7 +177,13 @@ func runC16(e *Env) {
 			if concurrent > 1 {
 				s = fmt.Sprintf("%03d:", i) + s
 			}
-			exps = append(exps, expect{0, s, fmt.Sprintf("text %q", clipS(s, 30))})
+			if inject && !variable && frameKind != fkDelimiter && cutFrame < 0 && len(s) > 0 && e.P(5) == 4 {
+				// the frame's header declares 9 more bytes than arrive before the peer closes the connection cleanly
+				cutFrame = i
+				exps = append(exps, expect{1, s, fmt.Sprintf("text %q in a frame whose declared length is longer than what arrives before EOF", clipS(s, 30))})
+			} else {
+				exps = append(exps, expect{0, s, fmt.Sprintf("text %q", clipS(s, 30))})
+			}
 			sendObjs = append(sendObjs, s)
 			frames = append(frames, []byte(s))
 			continue
